@@ -1000,7 +1000,10 @@ let run_cfg which file =
            let others = List.filter (fun v -> not (is_unknown_key v)) viol in
            let clauses = (if impl_ok && not schema_keys_ok then ["schema-rejects-accepted-key"] else [])
                          @ (if cls = "unknownkey" && schema_keys_ok && doc_keys_unique (S (S (S (S (S (S (S (S (S (S (S (S O)))))))))))) d then ["schema-allows-rejected-key"] else [])
-                         @ (if impl_ok && others <> [] then ["schema-rejects-accepted-document"] else []) in
+                         @ (if impl_ok && others <> [] then ["schema-rejects-accepted-document"] else [])
+                         (* constructed documents whose values are of the right types: what the schema admits, the parser reads *)
+                         @ (if String.length id > 17 && String.sub id 0 17 = "foreign-override-" && (not impl_ok) && model_ok && viol = []
+                            then ["parser-rejects-schema-valid-document"] else []) in
            let kf =
              if clauses = ["schema-rejects-accepted-document"] then begin
                let req_only = List.for_all (fun v -> match v with
